@@ -1553,7 +1553,24 @@ func main() {
 			all = append(all, caseOut{Steps: []string{"pending-probe"}, In: caseIn{Gen: "pending-probe", Via: "probe", Origin: po.In.Peers, Leader: po.In.Leader, Probe: &pc}})
 		}
 	}
+	emitServed := func() {
+		o, err := servedScatterCase(rn)
+		if err != nil {
+			R.Notes = append(R.Notes, "grpc-scatter phase skipped: "+err.Error())
+			return
+		}
+		R.Count("gen:grpc-scatter")
+		R.Case(o.coq, true)
+		if err := cf.Add(o.coq); err != nil {
+			panic(err)
+		}
+		all = append(all, o)
+	}
 	emit := func(c *caseIn) {
+		if c.Via == "grpc-scatter" {
+			emitServed()
+			return
+		}
 		if c.Via == "probe" {
 			if c.Probe != nil {
 				emitProbe(c.Probe)
@@ -1667,6 +1684,7 @@ func main() {
 		}
 	} else {
 		t0 := time.Now()
+		emitServed()
 		em := *enumMax
 		if em == 0 {
 			em = 3
